@@ -569,7 +569,7 @@ Cases ==
   \o One1("ConvexSupportFunction", <<One, Two, INF>>)
   \o MuL("SmoothStronglyConvexQuadraticFunction")
   \o << Case("BlockSmoothConvexFunction", <<One>>), Case("BlockSmoothConvexFunction", <<One, Two>>),
-        Case("BlockSmoothConvexFunction", <<Two, One>>) >>
+        Case("BlockSmoothConvexFunction", <<Two, One>>), Case("BlockSmoothConvexFunction", <<One, One>>) >>   \* equal constants too
   \o (IF GridMode = 1 THEN <<>> ELSE << Case("BlockSmoothConvexFunction", <<Two>>), Case("BlockSmoothConvexFunction", <<RI(4), One>>) >>)
   \o One1("CocoerciveOperator", <<Half, One>>)
   \o (IF GridMode = 1 THEN << Case("CocoerciveStronglyMonotoneOperator", <<Q4, One>>), Case("CocoerciveStronglyMonotoneOperator", <<Half, Half>>) >>
